@@ -66,8 +66,8 @@ func genC07(r *Rng, tier string) *World {
 	var cfgs []GenCfg
 	for i := 0; i < ns; i++ {
 		c := DrawGenCfg(r, "parse")
-		c.without("pre")
-		c.PPT = Pick(r, []float64{0, 0.2})
+		c.PPT = Pick(r, []float64{0, 0.2, 0.4})
+		c.PPTErr = Pick(r, []float64{0, 0.3})
 		c.Opts = r.P(0.3)
 		cfgs = append(cfgs, c)
 		w.Schemas = append(w.Schemas, GenNode(r, &c, 0, true))
@@ -81,6 +81,15 @@ func genC07(r *Rng, tier string) *World {
 		}
 		op := genExecOp(r, w, cfgs, 0.35)
 		op.Collect = Pick(r, collectKinds)
+		if op.Kind == "parse" && r.P(0.12) {
+			// an undecodable document through a front end: the factory-error paths also take and return pool objects
+			n := w.Schemas[op.Schema]
+			if n.Kind == "struct" || (n.Kind == "ptr" && n.Elem.Kind == "struct") {
+				op.Front = "zjson"
+				op.Input = VM()
+				op.IO = &IOSpec{BodyKind: "raw", Body: Pick(r, []string{`{"a":`, `[1]`, `null`, ``, `nope`})}
+			}
+		}
 		if r.P(0.08) {
 			op.PanicAt = 1 + r.Intn(3)
 		}
